@@ -19,7 +19,7 @@ from mc.lattice import chunked
 UTC = timezone.utc
 OFFS = (-14 * 60, -330, 0, 345, 14 * 60)
 BOUNDS = {
-    "quick": {"grid": "G1: ~180 anchors x ms {0,1,499,500,999} x 24 durations (rotating offsets); G2: 3 us-binade-edge anchors (2^49,2^50,2^51 us) x all 1000 ms x 12 durations; G3: ~110 durations x 6 anchors x ms {0,999}; G4: data catalogue (34) x 2 anchors; each inserted singly AND in bulk; all three backends", "ownership": "5 write ops x 5 mutations x 3 read ops x 3 mutated objects + metadata/buckets/create/update aliasing histories", "other_write_paths": "~770 grid events (all durations x 3 anchors, data catalogue with a > 1 day duration) written through replace-by-id, bulk upsert and replace_last", "acknowledged_then_rejected": "1-3 unobserved single inserts followed by each of 6 rejected operations (same / other bucket), then listing and lookup", "id_uniqueness": "all histories of 5 ops over insert / bulk insert / bulk insert of the same object twice / delete oldest|newest|middle, ids unique and lookup == listing after every op"},
+    "quick": {"grid": "G1: ~180 anchors x ms {0,1,499,500,999} x 24 durations (rotating offsets); G2: 3 us-binade-edge anchors (2^49,2^50,2^51 us) x all 1000 ms x 12 durations; G3: ~110 durations x 6 anchors x ms {0,999}; G4: data catalogue (34) x 2 anchors; each inserted singly AND in bulk; all three backends", "ownership": "5 write ops x 5 mutations x 3 read ops x 3 mutated objects + metadata/buckets/create/update aliasing histories", "other_write_paths": "~770 grid events (all durations x 3 anchors, data catalogue with a > 1 day duration) written through replace-by-id, bulk upsert and replace_last", "acknowledged_then_rejected": "1-3 unobserved single inserts followed by each of 6 rejected operations (same / other bucket), then listing and lookup", "id_uniqueness": "all histories of 4 (thorough 5) ops over insert / bulk insert / bulk insert of the same object twice / replace_last / delete oldest|newest|middle; exact ids and contents and lookup == listing after every op"},
     "thorough": {"grid": "G2 additionally at one anchor per decade 1970..2100, epoch 0 and 2100-12-31T23:59:59, x all 1000 ms x 24 durations; rest as quick"},
 }
 RULE = (
@@ -421,17 +421,23 @@ def _unit_paths(backend):
     return u.result()
 
 
-IDOPS = ("ins", "bulk2", "bulk2same", "del_oldest", "del_newest", "del_middle")
+IDOPS = ("ins", "bulk2", "bulk2same", "repl", "del_oldest", "del_newest", "del_middle")
 
 
 def _unit_ids(args):
-    """id uniqueness under histories: every sequence of <= depth ops over insert / bulk insert /
-    delete (oldest, newest, middle live id); after every op all ids in the listing are unique and
-    non-None and lookup by id returns the listed event"""
+    """ids and contents under histories: every sequence of <= depth ops over insert / bulk insert /
+    bulk insert of the same object twice / replace_last / delete (oldest, newest, middle live id);
+    after every op the listing must hold exactly the expected ids with exactly the expected
+    contents (an insert adds fresh unique ids, a delete removes the addressed id and nothing else,
+    replace_last rewrites one event), and lookup by id returns the listed event"""
     backend, firsts, depth = args
     ctx = _G["ctx"]
     u = Unit()
     wdir = ctx.wdir()
+
+    def cont(e):
+        return (S.us_of(e.timestamp), S.dus_of(e.duration), S.canon_data(e.data))
+
     for first in firsts:
         for rest in itertools.product(IDOPS, repeat=depth - 1):
             hist = (first,) + rest
@@ -439,46 +445,70 @@ def _unit_ids(args):
             S.mk_bucket(ds, "i")
             b = ds["i"]
             n = 0
+            model = {}
             u.traces += 1
             for step, op in enumerate(hist):
-                live = sorted(t[0] for t in S.dump_bucket(ds, "i"))
+                live = sorted(model)
+                fresh = []
                 if op == "ins":
                     n += 1
-                    b.insert(Event(timestamp=T0 + timedelta(seconds=n), duration=1, data={"n": n}))
+                    e = Event(timestamp=T0 + timedelta(seconds=n), duration=1, data={"n": n})
+                    fresh = [cont(e)]
+                    b.insert(e)
                 elif op == "bulk2":
-                    b.insert([Event(timestamp=T0 + timedelta(seconds=n + 1), duration=1, data={"n": n + 1}), Event(timestamp=T0 + timedelta(seconds=n + 2), duration=0, data={"n": n + 2})])
+                    es = [Event(timestamp=T0 + timedelta(seconds=n + 1), duration=1, data={"n": n + 1}), Event(timestamp=T0 + timedelta(seconds=n + 2), duration=0, data={"n": n + 2})]
                     n += 2
+                    fresh = [cont(x) for x in es]
+                    b.insert(es)
                 elif op == "bulk2same":
-                    same = Event(timestamp=T0 + timedelta(seconds=n + 1), duration=1, data={"n": n + 1})
-                    b.insert([same, same])  # the same object twice: two insertions
                     n += 1
-                elif live:
+                    same = Event(timestamp=T0 + timedelta(seconds=n), duration=1, data={"twin": n})
+                    fresh = [cont(same), cont(same)]
+                    b.insert([same, same])  # the same object twice: two insertions (content-equal twins)
+                elif op == "repl" and live:
+                    newest = b.get(1)[0]
+                    n += 1
+                    e = Event(timestamp=newest.timestamp, duration=2, data={"n": n})
+                    b.replace_last(e)
+                    if newest.id in model:
+                        model[newest.id] = cont(e)
+                elif op.startswith("del") and live:
                     tgt = live[0] if op == "del_oldest" else live[-1] if op == "del_newest" else live[len(live) // 2]
                     b.delete(tgt)
+                    del model[tgt]
                 else:
                     break
                 u.evaluations += 1
                 u.transitions += 1
                 dump = S.dump_bucket(ds, "i")
-                ids = [t[0] for t in dump]
+                got = {}
                 bad = None
-                want_n = len(live) + {"ins": 1, "bulk2": 2, "bulk2same": 2}.get(op, -1)
-                if len(dump) != want_n:
-                    bad = ("event-count-wrong-after-op", f"after {hist[: step + 1]}: {len(dump)} events, expected {want_n}")
-                elif len(set(ids)) != len(ids) or any(i is None for i in ids):
-                    bad = ("ids-not-unique", f"ids in the bucket after {hist[: step + 1]}: {ids}")
-                else:
-                    for t in dump:
-                        e = b.get_by_id(t[0])
-                        if e is None or S.ev_tuple(e) != t:
-                            bad = ("lookup-differs-from-listing", f"after {hist[: step + 1]}: get_by_id({t[0]}) = {None if e is None else S.ev_tuple(e)}, listing {t}")
+                for t in dump:
+                    if t[0] in got or t[0] is None:
+                        bad = ("ids-not-unique", f"ids in the bucket after {hist[: step + 1]}: {[x[0] for x in dump]}")
+                    got[t[0]] = t[1:]
+                if not bad:
+                    new_ids = [i for i in got if i not in model]
+                    if sorted(got[i] for i in new_ids) != sorted(fresh) or len(got) != len(model) + len(fresh):
+                        bad = ("wrong-events-after-op", f"after {hist[: step + 1]}: listing {sorted(got.items())}; expected the {len(model)} known events plus new {fresh}")
+                    else:
+                        for i, c in model.items():
+                            if got.get(i) != c:
+                                bad = ("wrong-event-changed-or-removed", f"after {hist[: step + 1]}: id {i} expected {c} got {got.get(i)}; listing ids {sorted(got)}")
+                                break
+                if not bad:
+                    for i, c in got.items():
+                        e = b.get_by_id(i)
+                        if e is None or S.ev_tuple(e)[1:] != c:
+                            bad = ("lookup-differs-from-listing", f"after {hist[: step + 1]}: get_by_id({i}) = {None if e is None else S.ev_tuple(e)}, listing {c}")
                             break
                 if bad:
                     u.violation(f"{backend}:history:{bad[0]}", f"{backend}: {bad[1]}", {"kind": "ids", "backend": backend, "history": list(hist[: step + 1])}, size=step)
                     break
+                model = got
             u.states += 1
-            u.nontrivial += 1 if any(o.startswith("del") for o in hist) else 0
-    u.sample({"kind": "id-uniqueness history", "backend": backend, "history": [firsts[0]] + list(IDOPS[:depth - 1])}, cap=1)
+            u.nontrivial += 1 if any(o.startswith("del") or o == "repl" for o in hist) else 0
+    u.sample({"kind": "id/content history", "backend": backend, "history": [firsts[0]] + list(IDOPS[:depth - 1])}, cap=1)
     S.close_all()
     return u.result()
 
@@ -550,6 +580,17 @@ def _unit_ack(backend):
     return u.result()
 
 
+def _replay_ids(backend, hist):
+    import itertools as _it
+
+    orig = _it.product
+    try:
+        itertools.product = lambda *a, **k: iter([tuple(hist[1:])])
+        return _unit_ids((backend, (hist[0],), len(hist)))
+    finally:
+        itertools.product = orig
+
+
 def _dispatch(x):
     return {"fid": _unit_fid, "own": _unit_own, "ids": _unit_ids, "ack": _unit_ack, "paths": _unit_paths}[x[0]](x[1])
 
@@ -562,7 +603,7 @@ def run(ctx):
     for i in range(0, len(g), B):
         batches.append((i, g[i : i + B]))
     units = [("own", b) for b in S.BACKENDS] + [("ack", b) for b in S.BACKENDS] + [("paths", b) for b in S.BACKENDS]
-    depth = 6 if ctx.thorough else 5
+    depth = 5 if ctx.thorough else 4
     for backend in S.BACKENDS:
         for op in IDOPS[:3]:
             units.append(("ids", (backend, (op,), depth)))
@@ -595,22 +636,14 @@ def run_case(ctx, case):
         p = ack_case(case["backend"], ctx.wdir(), case["k"], case["fault"], case["into_other"])
         return {"violations": [["acknowledged-insert-lost", p]] if p else []}
     if case["kind"] == "ids":
-        r = _unit_ids((case["backend"], (case["history"][0],), 1)) if len(case["history"]) == 1 else None
-        ds = S.fresh(case["backend"], ctx.wdir())
-        S.mk_bucket(ds, "i")
-        b = ds["i"]
-        n = 0
-        for op in case["history"]:
-            live = sorted(t[0] for t in S.dump_bucket(ds, "i"))
-            if op == "ins":
-                n += 1
-                b.insert(Event(timestamp=T0 + timedelta(seconds=n), duration=1, data={"n": n}))
-            elif op == "bulk2":
-                b.insert([Event(timestamp=T0 + timedelta(seconds=n + 1), duration=1, data={"n": n + 1}), Event(timestamp=T0 + timedelta(seconds=n + 2), duration=0, data={"n": n + 2})])
-                n += 2
-            elif live:
-                b.delete(live[0] if op == "del_oldest" else live[-1] if op == "del_newest" else live[len(live) // 2])
-        ids = [t[0] for t in S.dump_bucket(ds, "i")]
-        return {"ids": ids, "violations": [["ids-not-unique", str(ids)]] if len(set(ids)) != len(ids) else []}
+        h = case["history"]
+        global IDOPS
+        keep = IDOPS
+        try:
+            # replay exactly this history: restrict the product to it
+            r = _replay_ids(case["backend"], tuple(h))
+        finally:
+            IDOPS = keep
+        return {"history": h, "violations": [[v["key"], v["what"]] for v in r["violations"]]}
     res = [x for x in meta_cases(case["backend"], ctx.wdir()) if x[0] == case["name"]]
     return {"violations": [[n, p] for n, p in res if p]}
